@@ -75,6 +75,35 @@ def _sites(ctx, f):
             ends = elt[0] == "mcall" and elt[2] == "end" and not elt[3] \
                 and elt[1] == ("elem", it)
             ok_mid = whole and ends
+            # the pattern object: the caller's compiled regex as it is, or
+            # re.compile(the caller's string) - nothing rebuilt from parts
+            # of it (a pattern text re-compiled without its flags)
+            p_enz = f.params[1] if len(f.params) > 1 else None
+            recv = it[1] if it[0] == "mcall" else None
+            alts = []
+
+            def phi_alts(x):
+                if x[0] == "phi":
+                    for y in x[1]:
+                        phi_alts(y)
+                elif x[0] == "ifexp":
+                    phi_alts(x[2])
+                    phi_alts(x[3])
+                else:
+                    alts.append(x)
+            if recv is not None and p_enz is not None:
+                phi_alts(recv)
+                P_E = ("param", p_enz)
+                given = all(a == P_E or (
+                    a[0] == "call" and a[1] == "re.compile"
+                    and a[2][:1] == (P_E,)) for a in alts)
+                ctx.check(given, "C17b-enzyme-as-given", f,
+                          "the sites are found with the caller's pattern "
+                          "(compiled only when it is a string)",
+                          f"the pattern object is {show(recv, 120)}: a "
+                          "compiled regex is not used as given, so options "
+                          "it carries (flags) no longer apply and the "
+                          "peptides are cut at other sites", node=rnode)
             if not whole:
                 why = (f"matches are searched with {show(it, 100)}: the "
                        "enzyme pattern must see the whole sequence "
